@@ -191,15 +191,17 @@ func (c10) Run(raw json.RawMessage) Result {
 		cmd.Env = append(os.Environ(), "MUREX_TEST=1", "HOME="+os.TempDir()+"/mxhome-c10")
 		os.MkdirAll(os.TempDir()+"/mxhome-c10", 0o755)
 		done := make(chan struct{})
+		timedOut := false
 		var out []byte
 		go func() { out, _ = cmd.Output(); close(done) }()
 		select {
 		case <-done:
-		case <-time.After(30 * time.Second):
+		case <-time.After(90 * time.Second):
 			if cmd.Process != nil {
 				cmd.Process.Kill()
 			}
 			<-done
+			timedOut = true
 		}
 		var av []string
 		okJSON := json.Unmarshal(out, &av) == nil
@@ -207,7 +209,7 @@ func (c10) Run(raw json.RawMessage) Result {
 		parsedOK := st.Kind == 0 && !st.IsExpr && st.NFuncs == 1
 		// expectation relative to the in-process parse: when the text is one statement,
 		// the helper must have run and received exactly the parsed parameters
-		if parsedOK {
+		if parsedOK && !timedOut {
 			e2e = okJSON && c08SameC10(av, st.Params)
 		}
 		if e2e {
